@@ -375,6 +375,17 @@ fn payload(tag: u8, n: usize, salt: u64) -> Vec<u8> {
 }
 
 fn gen_payloads(rng: &mut Rng, failing_lazy: bool) -> (Vec<u8>, Vec<u8>) {
+    let (dp, lp) = gen_payloads_full(rng, failing_lazy);
+    if SMALL_PAYLOADS.load(std::sync::atomic::Ordering::Relaxed) {
+        return (dp.into_iter().take(40).collect(), lp.into_iter().take(40).collect());
+    }
+    (dp, lp)
+}
+
+/// set for `--budget tiny` (Miri)
+static SMALL_PAYLOADS: std::sync::atomic::AtomicBool = std::sync::atomic::AtomicBool::new(false);
+
+fn gen_payloads_full(rng: &mut Rng, failing_lazy: bool) -> (Vec<u8>, Vec<u8>) {
     let lp = match rng.usize(5) {
         0 => vec![],
         1 => payload(b'L', 1, 0),
@@ -461,6 +472,7 @@ pub fn run(args: &Args) -> i32 {
          direction, gate pairs, PRNG chunking, smooth); distinct = (lists, version, payload sizes, styles, gates, chunk seed); every case runs both real futures",
     );
     let tiny = util::tiny(args);
+    SMALL_PAYLOADS.store(tiny, std::sync::atomic::Ordering::Relaxed);
     let thorough = args.tier == vmon::Tier::Thorough && !tiny;
     let lists3 = all_lists(3);
     let lists2 = all_lists(2);
@@ -480,7 +492,7 @@ pub fn run(args: &Args) -> i32 {
         v
     };
     let n_a = if tiny { 8 } else { combos_full.len() as u64 };
-    let reps = if thorough { 6 } else { 1 };
+    let reps = if thorough { 16 } else { 1 };
     vmon::par_cases(&check, n_a * reps, args.threads, |i, rng| {
         let (di, li, lazy) = combos_full[(i % combos_full.len() as u64) as usize];
         let mut sc = make(rng, &lists3[di], &lists3[li], lazy);
